@@ -11,4 +11,6 @@ EXPLANATION = (
 ASSUMED = ["A-AQUEUE (asyncio.Queue contract, FIFO, exactly-once hand-over)",
            "liveness ('eventually terminates') is not expressible: proved is the safety form I5 + I7",
            "per-sender order and no-duplication follow from FIFO hand-over of A-AQUEUE plus 'send appends at the tail' (C12-item-enqueued-last)"]
-BOUNDED = []
+from pyvc.check import external_bounded
+BOUNDED = [external_bounded("schedule-exploration", "standin_misc.sched", ["--tier", "quick"], ["--tier", "thorough"],
+                            "systematic exploration of the asyncio ready-queue schedules of small configurations (quick: 31 configurations, thorough: 1195) on the real AsyncChannel / asyncio.Queue")]
